@@ -5,9 +5,11 @@
    `forall sched` is every interleaving of every number of calls, terminal messages, timer expiries
    and disconnects).  s0 is the value of the platform serial counter when the connection starts.
 
-   no_reuse tr: no serial was handed out while a command, timer or timeout message still carried it
-   (the counter would have to go once round, 65 536 frames, while one command is outstanding);
-   C12_no_reuse_* show that the hypothesis holds on runs that wrap and fails only in that situation. *)
+   no_reuse tr: no serial was handed out while a command, timer or timeout message still carried it.
+   C12_no_reuse_when_few_frames proves it for every run with at most 65 536 frames on the connection,
+   C12_no_reuse_holds_across_wrap shows a run that wraps and satisfies it, and C12_refuted_reuse is the run
+   in which it fails (one command without timeout outstanding while the counter goes once round): there the
+   older caller is never answered, not even by the disconnect - recorded as finding C12/serial-reuse. *)
 From Coq Require Import List NArith Bool Arith.
 From JT.Base Require Import Sched.
 From JT.Model Require Import Writer.
@@ -15,9 +17,10 @@ From JT.Proofs Require Import Writer_proofs Writer_trace.
 Import ListNotations.
 Open Scope N_scope.
 
-(* Every frame handed to the socket (command or automatic reply) carries the next serial, mod 65536;
-   frames less than 65536 apart carry different serials; a command is handed to the socket at most
-   once, after its call was made. *)
+(* Every frame handed to the socket (command, automatic reply or re-request) carries the next serial, mod
+   65536; frames less than 65536 apart carry different serials.  Under no_reuse: a command is handed to the
+   socket AT MOST once, after its call was made, and conn.Write fails only once the terminal is gone or this
+   side has closed the socket.  "At least once" is C12_written_at_least_once. *)
 Theorem C12_written_once_fresh_serial : forall s0 sched, s0 < 65536 ->
   let tr := trace step (init s0) sched in
   (forall j x, nth_error (serials tr) j = Some x -> x = (s0 + N.of_nat j) mod 65536) /\
@@ -25,7 +28,8 @@ Theorem C12_written_once_fresh_serial : forall s0 sched, s0 < 65536 ->
      nth_error (serials tr) j = Some x -> nth_error (serials tr) j' = Some x' -> x <> x') /\
   (no_reuse tr ->
      NoDup (written tr) /\
-     forall a k c ok b, tr = a ++ OWrite k c ok :: b -> In (OCall c) a /\ ~ In (c_id c) (written a)).
+     forall a k c ok b, tr = a ++ OWrite k c ok :: b ->
+       In (OCall c) a /\ ~ In (c_id c) (written a) /\ (ok = false -> In OPeerClose a \/ In OStop a)).
 Proof.
   intros s0 sched Hs tr. split; [|split].
   - intros j x H. rewrite <- nth_serial_mod by auto. eapply serials_all; eauto.
@@ -36,8 +40,9 @@ Proof.
 Qed.
 Print Assumptions C12_written_once_fresh_serial.
 
-(* A call gets at most one result, only calls that were made get one, and in every quiescent state (no
-   process of the server can move) every call has its result — except a command sent WITHOUT a timeout
+(* Under no_reuse: a call gets AT MOST one result, only calls that were made get one, and AT LEAST one in
+   every quiescent state (no process of the server can move; C13_quiescent_reached: such a state is reached
+   from every state within [measure s] server steps): there every call has its result — except a command sent WITHOUT a timeout
    (OverTimeDuration < 0) that waits for its response on a live, idle connection. *)
 Theorem C12_exactly_one_result : forall s0 sched,
   let s := final step (init s0) sched in let tr := trace step (init s0) sched in
@@ -61,7 +66,12 @@ Print Assumptions C12_exactly_one_result.
      before with serial k, and m echoes k (0x1003, which carries no serial: the call is a 0x9003 query);
    - a timeout: the command of this call was written with serial k, after that its own timer fired and
      no response echoing k was taken from msgChan in between;
-   - a write failure: conn.Write of this call's command has just failed. *)
+   - a write failure: conn.Write of this call's OWN command has just failed (which by
+     C12_written_once_fresh_serial happens only after the terminal went away or the socket was closed);
+   - ErrNotExistKey: at that moment the registry does not route the key to this connection: it has not joined
+     (yet), or it has left - stop() leaves first, so this covers the commands answered by the teardown.
+     A caller whose terminal is registered for the whole call never gets it.
+   (under no_reuse) *)
 Theorem C12_own_response : forall s0 sched, let tr := trace step (init s0) sched in
   no_reuse tr ->
   forall a i r b, tr = a ++ OReturn i r :: b ->
@@ -71,7 +81,7 @@ Theorem C12_own_response : forall s0 sched, let tr := trace step (init s0) sched
     | RTimeout => exists k c a1 a2, c_id c = i /\ a = a1 ++ OWrite k c true :: a2 /\
                                     In (OFire i) a2 /\ noseen k a2
     | RWriteFail => exists k c a', c_id c = i /\ a = a' ++ [OWrite k c false]
-    | RNoExist => True
+    | RNoExist => registered_after a = false
     end.
 Proof.
   intros s0 sched tr Hnr a i r b E.
@@ -80,10 +90,20 @@ Proof.
 Qed.
 Print Assumptions C12_own_response.
 
+(* The liveness half of "written exactly once": in a quiescent state every call's command has been handed to
+   the socket, unless the call was answered ErrNotExistKey (by C12_own_response: only while the key is not
+   routed to this connection).  So a command to a terminal that stays online IS written. *)
+Theorem C12_written_at_least_once : forall s0 sched,
+  let s := final step (init s0) sched in let tr := trace step (init s0) sched in
+  no_reuse tr -> quiescent s ->
+  forall c, In (OCall c) tr -> In (c_id c) (written tr) \/ In (OReturn (c_id c) RNoExist) tr.
+Proof. exact written_at_least_once_all. Qed.
+Print Assumptions C12_written_at_least_once.
+
 (* Terminal traffic that is not a response is answered in between: the automatic replies are, in order,
    replies to the messages the terminal sent that want one (nothing invented, nothing answered twice or out
-   of order); each reply is written in the step in which the writer took the message, which the terminal
-   had sent; and in a quiescent state of a connection that is still up every such message has its reply. *)
+   of order); (under no_reuse) each reply is written in the step in which the writer took the message, which
+   the terminal had sent; and in a quiescent state of a connection that is still up every such message has its reply. *)
 Theorem C12_other_traffic_answered : forall s0 sched,
   let s := final step (init s0) sched in let tr := trace step (init s0) sched in
   (exists rest, replied_tags tr ++ rest = sent_tags tr) /\
@@ -118,7 +138,7 @@ Example C12_wrap_run :
     (up ++ [Call 33027 true; Call 33028 true; MgrStep JOk; MgrStep JOk; WAct true; WAct true;
             PeerSend (TResp 260 1); PeerSend (TResp 1 0); RdRead; RdPush; RdRead; RdPush;
             WMsg 0 true; WMsg 0 true; TQuit 0; TSend 0; TSend 1; WCpl; WCpl]) =
-  [OSent (TOther 7 true); OSeen (TOther 7 true); OReply 65535 (TOther 7 true) true;
+  [OSent (TOther 7 true); OReg true; OSeen (TOther 7 true); OReply 65535 (TOther 7 true) true;
    OCall {| c_id := 0; c_cmd := 33027; c_tmo := true |}; OCall {| c_id := 1; c_cmd := 33028; c_tmo := true |};
    OWrite 0 {| c_id := 0; c_cmd := 33027; c_tmo := true |} true;
    OWrite 1 {| c_id := 1; c_cmd := 33028; c_tmo := true |} true;
@@ -140,4 +160,50 @@ Example C12_quiescent_reachable :
   quiescent (final step (init 0) (up ++ [Call 33027 true; MgrStep JOk; WAct true; TSend 0; WCpl])).
 Proof.
   intros c Hc. destruct c; try discriminate Hc; reflexivity.
+Qed.
+
+(* the exception of C12_exactly_one_result is real: a command without timeout, a silent terminal, everybody idle *)
+Example C12_no_timeout_waits :
+  let s := final step (init 0) (up ++ [Call 33027 false; MgrStep JOk; WAct true]) in
+  quiescent s /\ rec s = [(1, {| c_id := 0; c_cmd := 33027; c_tmo := false |})] /\ stop_closed s = false.
+Proof.
+  split; [|split; reflexivity].
+  intros c Hc. destruct c; try discriminate Hc; reflexivity.
+Qed.
+
+(* ---- why no_reuse is a hypothesis: the run in which it fails ----
+   Command 0 (no timeout) is written with serial 1 and never answered; 65 535 heartbeats later the counter is
+   at 1 again and command 1 is written with serial 1: record[1] is overwritten (OReuse).  The terminal
+   disconnects: onStopEvent answers what is in the record - call 1 - and call 0 is never answered, although the
+   final state is quiescent.  Confirmed on the socket (harness scenario `reuse`, thorough tier); finding
+   C12/serial-reuse in known_findings.json. *)
+Definition beat : list choice := [PeerSend (TOther 0 true); RdRead; RdPush; WMsg 0 true].
+Fixpoint beats (n : nat) : list choice := match n with O => [] | S m => beat ++ beats m end.
+Definition hb (s : st) : st := final step s beat.
+Definition reuse_prefix : list choice := up ++ [Call 33027 false; MgrStep JOk; WAct true].
+Definition reuse_suffix : list choice :=
+  [Call 33028 false; MgrStep JOk; WAct true;
+   PeerClose; RdFail; MgrStep JOk; RdClose; RdClose; RdClose; RdClose; WStop; WDrain].
+
+Lemma iter_shift : forall (f : st -> st) n x, Nat.iter n f (f x) = f (Nat.iter n f x).
+Proof. induction n as [|n IH]; intros x; simpl; [reflexivity | now rewrite IH]. Qed.
+
+Lemma final_beats : forall n s, final step s (beats n) = Nat.iter n hb s.
+Proof.
+  induction n as [|n IH]; intros s; [reflexivity|].
+  change (beats (S n)) with (beat ++ beats n). rewrite final_app, IH.
+  change (final step s beat) with (hb s). exact (iter_shift hb n s).
+Qed.
+
+Theorem C12_refuted_reuse :
+  let s2 := final step (init 0) (reuse_prefix ++ beats (N.to_nat 65535)) in
+  let r := run step s2 reuse_suffix in
+  rec s2 = [(1, {| c_id := 0; c_cmd := 33027; c_tmo := false |})] /\ seq s2 = 1 /\
+  In OReuse (snd r) /\ returns (snd r) = [(1%nat, RNoExist)] /\ ncalls (fst r) = 2%nat /\
+  rd (fst r) = RDone /\ wr (fst r) = WsExit /\ mgrQ (fst r) = [] /\ rec (fst r) = [] /\ timers (fst r) = [].
+Proof.
+  intros s2 r.
+  assert (E : s2 = N.iter 65535 hb (final step (init 0) reuse_prefix)).
+  { unfold s2. rewrite final_app, final_beats. symmetry. apply N2Nat.inj_iter. }
+  unfold r. rewrite E. vm_compute. repeat split; auto.
 Qed.
